@@ -230,8 +230,11 @@ def job_parseblock(seed):
         if okfmt:
             tz = [rvc.to_z3(SInt.ex(t)) for t in toks]
             rb, rs, re_ = tz[0], (tz[1] if len(tz) == 3 else z3.IntVal(1)), (tz[0] if len(tz) == 1 else tz[-1])
-            # same enumeration: same begin; same number of steps; same stride unless there is only one element
-            same = z3.And(rb == zb, z3.Or(z3.And(rs == zs, re_ == ze), z3.And(zb == ze, re_ == zb)))
+            # same enumeration: same begin, and either the same stride and end, or both blocks consist of the single element begin
+            # (a block is a single element exactly when one more stride leaves it - linear, no division needed)
+            single = z3.Or(z3.And(zs > 0, zb + zs > ze), z3.And(zs < 0, zb + zs < ze))
+            rsingle = z3.Or(z3.And(rs > 0, rb <= re_, rb + rs > re_), z3.And(rs < 0, rb >= re_, rb + rs < re_))
+            same = z3.And(rb == zb, z3.Or(z3.And(rs == zs, re_ == ze), z3.And(single, rsingle)))
             obs.append(rvc.logic('C18.range.print/%s/roundtrip' % tag, 'operator<<(ostream, RangeParser)', 'parse(print(block)) enumerates the same sequence as block', same, pc=P.pc))
         if not P.next():
             break
@@ -241,10 +244,34 @@ def job_parseblock(seed):
                 o['replay'] = replay_parse(o['witness'])
             except core.Undecided as e_:
                 o['replay'] = {'reproduced': False, 'error': str(e_)}
+    for o in obs:
+        if o['status'] == core.REFUTED and o['id'].startswith('C18.range.print') and isinstance(o.get('witness'), dict) and all(k in o['witness'] for k in 'bse'):
+            try:
+                o['replay'] = replay_print(o['witness'])
+            except core.Undecided as e_:
+                o['replay'] = {'reproduced': False, 'error': str(e_)}
     mf = [{'name': 'RangeParser::ParseBlock', 'file': rel, 'ast_nodes': rvc.node_count(fn)}, {'name': 'operator<<(std::ostream&, const RangeParser&)', 'file': 'tools/include/votca/tools/rangeparser.h', 'ast_nodes': rvc.node_count(opf[0])}]
     for o in obs:
         o['functions'] = mf
     return obs
+
+
+def replay_print(w):
+    """the verifier's block (b, s, e) through the real printer and back through the real parser: both enumerations must agree"""
+    text = '%d:%d:%d' % (int(w['b']), int(w['s']), int(w['e']))
+    prog = r"""#include <cstdio>
+#include <sstream>
+#include <vector>
+#include "votca/tools/rangeparser.h"
+using namespace votca::tools;
+static std::vector<long> seq(RangeParser &rp) { std::vector<long> v; for (RangeParser::iterator it = rp.begin(); it != rp.end(); ++it) { if (v.size() > 100000) break; v.push_back(*it); } return v; }
+int main(int argc, char **argv) { RangeParser a; a.Parse(argv[1]); std::stringstream ss; ss << a; RangeParser b;
+  try { b.Parse(ss.str()); } catch (std::exception &e) { printf("printed '%s' is rejected: %s\n", ss.str().c_str(), e.what()); return 1; }
+  std::vector<long> x = seq(a), y = seq(b); printf("block %s printed as '%s': %zu elements before, %zu after\n", argv[1], ss.str().c_str(), x.size(), y.size()); return x == y ? 0 : 1; }
+"""
+    exe = native.build('C18.print', prog, ['tools/src/libtools/rangeparser.cc', 'tools/src/libtools/tokenizer.cc'])
+    rc, out, err = native.execute(exe, [text], timeout=60)
+    return {'reproduced': rc == 1, 'cmd': '%s %s' % (exe, text), 'rc': rc, 'stdout': out[:300], 'against': 'real RangeParser::Parse, operator<< and iterator with ASan+UBSan', 'input_from': 'verifier witness'}
 
 
 def replay_parse(w):
